@@ -44,6 +44,32 @@ def _known(d, res):
     return None
 
 
+def implicit_deck(rng):
+    """a cell with a TRCL and other cells that refer to its surfaces as seen from it (numbers 1000*cell+surface)"""
+    d = D.Deck()
+    mn1, ps1 = G.elementary(rng, ['so', 's', 'cz', 'c/y', 'kz1', 'ky', 'tz', 'gq', 'sx'])
+    mn2, ps2 = G.elementary(rng, ['px', 'py', 'pz', 'p'])
+    # surface / cell numbers chosen so that fresh surface numbers handed out during the conversion
+    # come close to the implicit numbers (e.g. surfaces 1, 999 and cell 1: implicit 1001, 1999)
+    s2 = rng.choice([2, 2, 999, 998, 500])
+    d.surfs = [D.Surf(1, mn1, ps1), D.Surf(s2, mn2, ps2)]
+    m, cls = G.random_motion(rng)
+    cid = rng.choice([1, 1, 3, 10, 25]) if s2 > 2 else rng.choice([3, 10, 25])
+    c1 = D.Cell(cid, ('i', ('s', -1), ('s', s2)), mat=1, rho='-1.0', trcl=m)
+    i1, i2 = 1000 * cid + 1, 1000 * cid + s2
+    variant = rng.randrange(3)
+    if variant == 0:
+        rest = [D.Cell(40, ('i', ('s', -i1), ('s', -i2)), mat=2, rho='-2.0'), D.Cell(41, ('s', i1), mat=0)]
+    elif variant == 1:
+        rest = [D.Cell(40, ('u', ('s', i1), ('s', -i2)), mat=2, rho='-2.0')]
+    else:
+        rest = [D.Cell(40, ('i', ('s', -i1), ('s', -i2)), mat=2, rho='-2.0'),
+                D.Cell(41, ('i', ('s', i1), ('s', i2)), mat=0), D.Cell(42, ('i', ('s', i1), ('s', -i2)), mat=1, rho='-1.0')]
+    d.cells = [c1] + rest
+    d.mats = {1: [('13027', '1.0')], 2: [('26056', '1.0')]}
+    return d, variant, cls
+
+
 def pottransform_case(seed, rng, ctx):
     """pot_transform / cell_transform (TRCL and FILL transformations applied to whole cells) vs the Lean model: every
     top-level call of a real conversion is replayed on the model from the state it started in (counters, cell
@@ -206,8 +232,13 @@ def run_case(stream, seed, ctx, params):
             mn, ps = G.macrobody(rng, [kind])
             facet = None if rng.random() < 0.5 else rng.randint(1, G.nfacets(mn, ps))
         for _ in range(20):
-            m, cls = G.random_motion(rng)
-            card, sp = P.spell_tr(rng, 7, m)
+            if rng.random() < 0.08:
+                # a matrix of determinant -1 (a mirror image), written with all nine entries: kept as it is
+                m, cls = G.random_motion(rng, 'mirror')
+                card, sp = P.spell_tr(rng, 7, m, ['full', 'full13'])
+            else:
+                m, cls = G.random_motion(rng)
+                card, sp = P.spell_tr(rng, 7, m)
             if P.sin_beta_ok(m, sp):
                 break
         d = P.probe_deck(mn, ps, tr=m, trnum=7, facet=facet)
@@ -241,27 +272,7 @@ def run_case(stream, seed, ctx, params):
         d.mats = {1: [('13027', '1.0')], 2: [('26056', '1.0')]}
         return run_deck(ctx, stream, d, [], rng, npts=npts, extra_sig={'trcl': how, 'rot': cls})
     if stream == 'implicit':
-        d = D.Deck()
-        mn1, ps1 = G.elementary(rng, ['so', 's', 'cz', 'c/y', 'kz1', 'ky', 'tz', 'gq', 'sx'])
-        mn2, ps2 = G.elementary(rng, ['px', 'py', 'pz', 'p'])
-        # surface / cell numbers chosen so that fresh surface numbers handed out during the conversion
-        # come close to the implicit numbers (e.g. surfaces 1, 999 and cell 1: implicit 1001, 1999)
-        s2 = rng.choice([2, 2, 999, 998, 500])
-        d.surfs = [D.Surf(1, mn1, ps1), D.Surf(s2, mn2, ps2)]
-        m, cls = G.random_motion(rng)
-        cid = rng.choice([1, 1, 3, 10, 25]) if s2 > 2 else rng.choice([3, 10, 25])
-        c1 = D.Cell(cid, ('i', ('s', -1), ('s', s2)), mat=1, rho='-1.0', trcl=m)
-        i1, i2 = 1000 * cid + 1, 1000 * cid + s2
-        variant = rng.randrange(3)
-        if variant == 0:
-            rest = [D.Cell(40, ('i', ('s', -i1), ('s', -i2)), mat=2, rho='-2.0'), D.Cell(41, ('s', i1), mat=0)]
-        elif variant == 1:
-            rest = [D.Cell(40, ('u', ('s', i1), ('s', -i2)), mat=2, rho='-2.0')]
-        else:
-            rest = [D.Cell(40, ('i', ('s', -i1), ('s', -i2)), mat=2, rho='-2.0'),
-                    D.Cell(41, ('i', ('s', i1), ('s', i2)), mat=0), D.Cell(42, ('i', ('s', i1), ('s', -i2)), mat=1, rho='-1.0')]
-        d.cells = [c1] + rest
-        d.mats = {1: [('13027', '1.0')], 2: [('26056', '1.0')]}
+        d, variant, cls = implicit_deck(rng)
         return run_deck(ctx, stream, d, [], rng, npts=npts, extra_sig={'variant': variant, 'rot': cls})
     if rng.random() < 0.4:
         # lattice cells carrying a FILL transformation or a TRCL: the transformation is composed with the translation
